@@ -147,6 +147,8 @@ def build_world() -> World:
     ax = w.axiom
     ax("T-root", "root != None and root.parent == None and root.depth == 0", "definition")
     ax("T-depth", "forall[Node](lambda n: implies(n != None and n.parent != None, n.depth == n.parent.depth + 1), lambda n: n.parent.depth)", "bounded:StateNode.__init__ line `self.depth = parent.depth + 1 if parent else 0`")
+    ax("T-depth-b", "forall[Node](lambda n: implies(n != None and n.parent != None, n.depth == n.parent.depth + 1), lambda n: (n.parent, n.depth))",
+       "bounded:StateNode.__init__ line `self.depth = parent.depth + 1 if parent else 0` (T-depth again, triggered by the pair of terms parent(n), depth(n); creates no parent(parent(..)) term)")
     ax("T-depth-nonneg", "forall[Node](lambda n: implies(n != None, n.depth >= 0), lambda n: n.depth)", "lean:depth_nonneg")
     ax("T-anc-def", "forall[Node, Node](lambda n, a: anc(n, a) == (n != None and (n == a or anc(n.parent, a))), lambda n, a: anc(n, a))", "definition")
     ax("T-anc-refl", "forall[Node](lambda n: implies(n != None, anc(n, n)), lambda n: anc(n, n))", "lean:anc_refl")
